@@ -4,7 +4,7 @@
 Require Extraction.
 Require Import ExtrOcamlBasic.
 From MOC.Base Require Import RangeSet.
-From MOC.Model Require Import Qty Ops1D Query Expr Build Repr Serial ST STSerial TextValid Store MocSet Freq SetQuery Neigh Valued ValuedCheck SetEffects Mom CellsSM.
+From MOC.Model Require Import Qty Ops1D Query Expr Build Repr Serial ST STSerial TextValid Store MocSet Freq SetQuery Neigh Valued ValuedCheck SetEffects Mom CellsSM Sweep2D.
 Extraction Language OCaml.
 Extraction "moc_model.ml"
   RangeSet.covb RangeSet.canonb RangeSet.canon_of
@@ -29,4 +29,5 @@ Extraction "moc_model.ml"
   Valued.select Valued.desc Valued.desc_rev ValuedCheck.check
   SetEffects.mk_file SetEffects.at_prefix SetEffects.n_effects SetEffects.cleanup SetEffects.view SetEffects.sizes_of SetEffects.effects_of
   Mom.mom_sum_hpx Mom.mom_sum_zuniq Mom.mom_filter_hpx Mom.divmod10
-  CellsSM.moc_cells_o.
+  CellsSM.moc_cells_o
+  Sweep2D.r2d_build.
